@@ -506,6 +506,9 @@ func (p *Parser) parseBuffer(buf []byte, last bool) error {
 			off += i
 		case expSign:
 			p.mode = expZeroMap
+			if 0 < len(p.num.BigBuf) {
+				p.num.BigBuf = append(p.num.BigBuf, b)
+			}
 			if b == '-' {
 				p.num.NegExp = true
 			}
